@@ -614,7 +614,7 @@ def has_side_effect(node: ast.AST, safe_callable_whitelist: Collection[str] = fr
     if isinstance(node, ast.For):
         return any(
             has_side_effect(item, safe_callable_whitelist)
-            for item in itertools.chain([node.target], [node.iter], node.body)
+            for item in itertools.chain([node.target], [node.iter], node.body, node.orelse)
         )
 
     if isinstance(node, ast.Lambda):
